@@ -3,6 +3,7 @@ Helper lemmas for Props/C20: the decimal rendering of integers is injective (so 
 injective encoding of integer keys), the duplicate-key scan written without accumulators.
 -/
 import LuaHelper.Model.Pat
+import LuaHelper.Spec.Pat
 namespace LuaHelper.Pat
 open LuaHelper.Lex LuaHelper.Ast
 
@@ -123,5 +124,285 @@ theorem dupKeys_eq (keys : List Exp) (parent : Loc) : dupKeys keys parent = dupF
   unfold dupKeys
   rw [go_eq]
   simp
+
+
+/-! ### keys of every constant kind: digits, separators, reduced fractions, injectivity of the key text -/
+
+
+theorem natBytes_digits (n : Nat) : ∀ b ∈ natBytes n, 48 ≤ b.toNat ∧ b.toNat ≤ 57 := by
+  induction n using Nat.strongRecOn with
+  | _ n ih =>
+    intro b hb
+    rw [natBytes] at hb
+    split at hb
+    · simp at hb
+      subst hb
+      simp
+      omega
+    · simp at hb
+      rcases hb with hb | hb
+      · exact ih (n / 10) (by omega) b hb
+      · subst hb
+        simp
+        omega
+
+theorem split_at_sep (c : UInt8) : ∀ (x x' y y' : Bytes), (∀ b ∈ x, b ≠ c) → (∀ b ∈ x', b ≠ c) →
+    x ++ c :: y = x' ++ c :: y' → x = x' ∧ y = y'
+  | [], [], y, y', _, _, h => by simpa using h
+  | [], b :: x', y, y', _, hx', h => by
+    simp at h
+    exact absurd h.1.symm (hx' b (by simp))
+  | a :: x, [], y, y', hx, _, h => by
+    simp at h
+    exact absurd h.1 (hx a (by simp))
+  | a :: x, b :: x', y, y', hx, hx', h => by
+    simp at h
+    obtain ⟨rfl, h⟩ := h
+    have := split_at_sep c x x' y y' (fun b hb => hx b (by simp [hb])) (fun b hb => hx' b (by simp [hb])) h
+    exact ⟨by rw [this.1], this.2⟩
+
+theorem fltVal_den_pos (t : Bytes) (n d : Nat) (h : fltVal t = some (n, d)) : 0 < d := by
+  unfold fltVal at h
+  simp only at h
+  repeat' split at h
+  all_goals first
+    | (simp at h; done)
+    | (simp only [Option.some.injEq, Prod.mk.injEq] at h; rw [← h.2]; exact Nat.pow_pos (by decide))
+
+theorem reduced_eq_iff (n1 d1 n2 d2 : Nat) (h1 : 0 < d1) (h2 : 0 < d2) :
+    (n1 / Nat.gcd n1 d1 = n2 / Nat.gcd n2 d2 ∧ d1 / Nat.gcd n1 d1 = d2 / Nat.gcd n2 d2) ↔ n1 * d2 = n2 * d1 := by
+  have g1 : 0 < Nat.gcd n1 d1 := Nat.gcd_pos_of_pos_right _ h1
+  have g2 : 0 < Nat.gcd n2 d2 := Nat.gcd_pos_of_pos_right _ h2
+  have c1 : Nat.Coprime (n1 / Nat.gcd n1 d1) (d1 / Nat.gcd n1 d1) := Nat.coprime_div_gcd_div_gcd g1
+  have c2 : Nat.Coprime (n2 / Nat.gcd n2 d2) (d2 / Nat.gcd n2 d2) := Nat.coprime_div_gcd_div_gcd g2
+  have en1 : n1 = n1 / Nat.gcd n1 d1 * Nat.gcd n1 d1 := (Nat.div_mul_cancel (Nat.gcd_dvd_left _ _)).symm
+  have ed1 : d1 = d1 / Nat.gcd n1 d1 * Nat.gcd n1 d1 := (Nat.div_mul_cancel (Nat.gcd_dvd_right _ _)).symm
+  have en2 : n2 = n2 / Nat.gcd n2 d2 * Nat.gcd n2 d2 := (Nat.div_mul_cancel (Nat.gcd_dvd_left _ _)).symm
+  have ed2 : d2 = d2 / Nat.gcd n2 d2 * Nat.gcd n2 d2 := (Nat.div_mul_cancel (Nat.gcd_dvd_right _ _)).symm
+  generalize Nat.gcd n1 d1 = G1 at *
+  generalize Nat.gcd n2 d2 = G2 at *
+  generalize n1 / G1 = a at *
+  generalize d1 / G1 = b at *
+  generalize n2 / G2 = a' at *
+  generalize d2 / G2 = b' at *
+  subst en1 ed1 en2 ed2
+  constructor
+  · rintro ⟨rfl, rfl⟩
+    simp only [Nat.mul_assoc, Nat.mul_left_comm, Nat.mul_comm]
+  · intro h
+    have hb : 0 < b := Nat.pos_of_mul_pos_right h1 |> fun _ => by
+      rcases Nat.eq_zero_or_pos b with hb | hb
+      · subst hb; simp at h1
+      · exact hb
+    have hb' : 0 < b' := by
+      rcases Nat.eq_zero_or_pos b' with hb | hb
+      · subst hb; simp at h2
+      · exact hb
+    have key : a * b' = a' * b := by
+      have : (a * b') * (G1 * G2) = (a' * b) * (G1 * G2) := by
+        calc (a * b') * (G1 * G2) = a * G1 * (b' * G2) := by simp only [Nat.mul_assoc, Nat.mul_left_comm, Nat.mul_comm]
+          _ = a' * G2 * (b * G1) := h
+          _ = (a' * b) * (G1 * G2) := by simp only [Nat.mul_assoc, Nat.mul_left_comm, Nat.mul_comm]
+      exact Nat.eq_of_mul_eq_mul_right (Nat.mul_pos g1 g2) this
+    have d1' : a ∣ a' := by
+      have : a ∣ a' * b := ⟨b', key.symm⟩
+      exact c1.dvd_of_dvd_mul_right this
+    have d2' : a' ∣ a := by
+      have : a' ∣ a * b' := ⟨b, key⟩
+      exact c2.dvd_of_dvd_mul_right this
+    have ea : a = a' := Nat.dvd_antisymm d1' d2'
+    subst ea
+    refine ⟨rfl, ?_⟩
+    rcases Nat.eq_zero_or_pos a with ha | ha
+    · subst ha
+      have hb1 : b = 1 := by simpa [Nat.Coprime] using c1
+      have hb2 : b' = 1 := by simpa [Nat.Coprime] using c2
+      rw [hb1, hb2]
+    · exact (Nat.eq_of_mul_eq_mul_left ha key).symm
+
+theorem natBytes_head_digit (n : Nat) (r : Bytes) (t : Bytes) (h : natBytes n ++ r = 63 :: t) : False := by
+  have hne := natBytes_ne_nil n
+  cases hx : natBytes n with
+  | nil => exact hne hx
+  | cons b bs =>
+    rw [hx] at h
+    simp at h
+    have := natBytes_digits n b (by rw [hx]; simp)
+    rw [h.1] at this
+    simp at this
+
+theorem fltKey_eq_iff (a b : Bytes) : fltKey a = fltKey b ↔ fltEq a b = true := by
+  unfold fltKey fltEq
+  cases ha : fltVal a with
+  | none =>
+    cases hb : fltVal b with
+    | none => simp
+    | some v =>
+      obtain ⟨n2, d2⟩ := v
+      simp only
+      constructor
+      · intro h; exact (natBytes_head_digit _ _ _ h.symm).elim
+      · intro h
+        have : a = b := by simpa using h
+        rw [this, hb] at ha; cases ha
+  | some u =>
+    obtain ⟨n1, d1⟩ := u
+    cases hb : fltVal b with
+    | none =>
+      simp only
+      constructor
+      · intro h; exact (natBytes_head_digit _ _ _ h).elim
+      · intro h
+        have : a = b := by simpa using h
+        rw [this, hb] at ha; cases ha
+    | some v =>
+      obtain ⟨n2, d2⟩ := v
+      simp only
+      have p1 := fltVal_den_pos a n1 d1 ha
+      have p2 := fltVal_den_pos b n2 d2 hb
+      have nd : ∀ n : Nat, ∀ x ∈ natBytes n, x ≠ 47 := by
+        intro n x hx h
+        have := natBytes_digits n x hx
+        rw [h] at this
+        simp at this
+      constructor
+      · intro h
+        have := split_at_sep 47 _ _ _ _ (nd _) (nd _) h
+        have e1 := natBytes_inj _ _ this.1
+        have e2 := natBytes_inj _ _ this.2
+        have := (reduced_eq_iff n1 d1 n2 d2 p1 p2).1 ⟨e1, e2⟩
+        simpa using this
+      · intro h
+        have h' : n1 * d2 = n2 * d1 := by simpa using h
+        have := (reduced_eq_iff n1 d1 n2 d2 p1 p2).2 h'
+        rw [this.1, this.2]
+
+
+theorem TK.all_get (k : TK) : TK.all[k.toNat]? = some k := by cases k <;> rfl
+theorem TK.toNat_inj (a b : TK) (h : a.toNat = b.toNat) : a = b := by
+  have ha := TK.all_get a
+  have hb := TK.all_get b
+  rw [h] at ha
+  rw [ha] at hb
+  exact Option.some.inj hb
+
+theorem keyStr_unop (o : TK) (e : Exp) (l p : Loc) (s : Bytes) (l' : Loc)
+    (h : keyStr (.unop o e l) p = some (s, l')) :
+    ∃ s' l'', keyStr e p = some (s', l'') ∧ s = opKeyPrefix ++ natBytes o.toNat ++ 58 :: s' := by
+  rw [keyStr] at h
+  cases hk : keyStr e p with
+  | none => rw [hk] at h; simp at h
+  | some v =>
+    obtain ⟨s', l''⟩ := v
+    rw [hk] at h
+    simp at h
+    exact ⟨s', l'', rfl, h.1.symm⟩
+
+theorem keyStr_eq_iff (p : Loc) : (k1 k2 : Exp) → (s1 s2 : Bytes) → (l1 l2 : Loc) →
+    keyStr k1 p = some (s1, l1) → keyStr k2 p = some (s2, l2) → (s1 = s2 ↔ compExp k1 k2 = true)
+  | .unop o1 e1 lu, k2, s1, s2, l1, l2, h1, h2 => by
+    obtain ⟨t1, m1, he1, rfl⟩ := keyStr_unop o1 e1 lu p s1 l1 h1
+    cases k2 with
+    | unop o2 e2 lv =>
+      obtain ⟨t2, m2, he2, rfl⟩ := keyStr_unop o2 e2 lv p s2 l2 h2
+      have ih := keyStr_eq_iff p e1 e2 t1 t2 m1 m2 he1 he2
+      have nd : ∀ n : Nat, ∀ x ∈ natBytes n, x ≠ 58 := by
+        intro n x hx h
+        have := natBytes_digits n x hx
+        rw [h] at this
+        simp at this
+      simp only [compExp, Bool.and_eq_true, beq_iff_eq]
+      constructor
+      · intro h
+        rw [List.append_assoc, List.append_assoc] at h
+        have h' := List.append_cancel_left h
+        have := split_at_sep 58 _ _ _ _ (nd _) (nd _) h'
+        exact ⟨TK.toNat_inj _ _ (natBytes_inj _ _ this.1), ih.1 this.2⟩
+      · rintro ⟨rfl, hc⟩
+        rw [ih.2 hc]
+    | _ => simp [keyStr, opKeyPrefix, intKeyPrefix, trueKey, falseKey, fltKeyPrefix, compExp] at h2 ⊢ <;> (try (rw [← h2.1])) <;> simp [opKeyPrefix]
+  | .int v l0, k2, s1, s2, l1, l2, h1, h2 => by
+    cases k2 with
+    | unop o2 e2 lv =>
+      obtain ⟨t2, m2, _, rfl⟩ := keyStr_unop o2 e2 lv p s2 l2 h2
+      simp [keyStr, opKeyPrefix, intKeyPrefix, trueKey, falseKey, fltKeyPrefix, compExp] at h1 ⊢
+      rw [← h1.1]; simp
+    | _ => (simp [keyStr, opKeyPrefix, intKeyPrefix, trueKey, falseKey, fltKeyPrefix, compExp] at h1 h2 ⊢) <;> (obtain ⟨rfl, rfl⟩ := h1; obtain ⟨rfl, rfl⟩ := h2; simp [compExp]; first | done | exact ⟨intStr_inj _ _, fun h => by rw [h]⟩ | exact fltKey_eq_iff _ _)
+  | .str s l0, k2, s1, s2, l1, l2, h1, h2 => by
+    cases k2 with
+    | unop o2 e2 lv =>
+      obtain ⟨t2, m2, _, rfl⟩ := keyStr_unop o2 e2 lv p s2 l2 h2
+      simp [keyStr, opKeyPrefix, intKeyPrefix, trueKey, falseKey, fltKeyPrefix, compExp] at h1 ⊢
+      rw [← h1.1]; simp
+    | _ => (simp [keyStr, opKeyPrefix, intKeyPrefix, trueKey, falseKey, fltKeyPrefix, compExp] at h1 h2 ⊢) <;> (obtain ⟨rfl, rfl⟩ := h1; obtain ⟨rfl, rfl⟩ := h2; simp [compExp]; first | done | exact ⟨intStr_inj _ _, fun h => by rw [h]⟩ | exact fltKey_eq_iff _ _)
+  | .name n l0, k2, s1, s2, l1, l2, h1, h2 => by
+    cases k2 with
+    | unop o2 e2 lv =>
+      obtain ⟨t2, m2, _, rfl⟩ := keyStr_unop o2 e2 lv p s2 l2 h2
+      simp [keyStr, opKeyPrefix, intKeyPrefix, trueKey, falseKey, fltKeyPrefix, compExp] at h1 ⊢
+      rw [← h1.1]; simp
+    | _ => (simp [keyStr, opKeyPrefix, intKeyPrefix, trueKey, falseKey, fltKeyPrefix, compExp] at h1 h2 ⊢) <;> (obtain ⟨rfl, rfl⟩ := h1; obtain ⟨rfl, rfl⟩ := h2; simp [compExp]; first | done | exact ⟨intStr_inj _ _, fun h => by rw [h]⟩ | exact fltKey_eq_iff _ _)
+  | .tru l0, k2, s1, s2, l1, l2, h1, h2 => by
+    cases k2 with
+    | unop o2 e2 lv =>
+      obtain ⟨t2, m2, _, rfl⟩ := keyStr_unop o2 e2 lv p s2 l2 h2
+      simp [keyStr, opKeyPrefix, intKeyPrefix, trueKey, falseKey, fltKeyPrefix, compExp] at h1 ⊢
+      rw [← h1.1]; simp
+    | _ => (simp [keyStr, opKeyPrefix, intKeyPrefix, trueKey, falseKey, fltKeyPrefix, compExp] at h1 h2 ⊢) <;> (obtain ⟨rfl, rfl⟩ := h1; obtain ⟨rfl, rfl⟩ := h2; simp [compExp]; first | done | exact ⟨intStr_inj _ _, fun h => by rw [h]⟩ | exact fltKey_eq_iff _ _)
+  | .fls l0, k2, s1, s2, l1, l2, h1, h2 => by
+    cases k2 with
+    | unop o2 e2 lv =>
+      obtain ⟨t2, m2, _, rfl⟩ := keyStr_unop o2 e2 lv p s2 l2 h2
+      simp [keyStr, opKeyPrefix, intKeyPrefix, trueKey, falseKey, fltKeyPrefix, compExp] at h1 ⊢
+      rw [← h1.1]; simp
+    | _ => (simp [keyStr, opKeyPrefix, intKeyPrefix, trueKey, falseKey, fltKeyPrefix, compExp] at h1 h2 ⊢) <;> (obtain ⟨rfl, rfl⟩ := h1; obtain ⟨rfl, rfl⟩ := h2; simp [compExp]; first | done | exact ⟨intStr_inj _ _, fun h => by rw [h]⟩ | exact fltKey_eq_iff _ _)
+  | .flt t l0, k2, s1, s2, l1, l2, h1, h2 => by
+    cases k2 with
+    | unop o2 e2 lv =>
+      obtain ⟨t2, m2, _, rfl⟩ := keyStr_unop o2 e2 lv p s2 l2 h2
+      simp [keyStr, opKeyPrefix, intKeyPrefix, trueKey, falseKey, fltKeyPrefix, compExp] at h1 ⊢
+      rw [← h1.1]; simp
+    | _ => (simp [keyStr, opKeyPrefix, intKeyPrefix, trueKey, falseKey, fltKeyPrefix, compExp] at h1 h2 ⊢) <;> (obtain ⟨rfl, rfl⟩ := h1; obtain ⟨rfl, rfl⟩ := h2; simp [compExp]; first | done | exact ⟨intStr_inj _ _, fun h => by rw [h]⟩ | exact fltKey_eq_iff _ _)
+  | .noKey, _, _, _, _, _, h1, _ => by simp [keyStr] at h1
+  | .nil _, _, _, _, _, _, h1, _ => by simp [keyStr] at h1
+  | .vararg _, _, _, _, _, _, h1, _ => by simp [keyStr] at h1
+  | .binop _ _ _ _, _, _, _, _, _, h1, _ => by simp [keyStr] at h1
+  | .table _ _ _, _, _, _, _, _, h1, _ => by simp [keyStr] at h1
+  | .func _, _, _, _, _, _, h1, _ => by simp [keyStr] at h1
+  | .parens _ _, _, _, _, _, _, h1, _ => by simp [keyStr] at h1
+  | .index _ _ _, _, _, _, _, _, h1, _ => by simp [keyStr] at h1
+  | .call _ _ _ _, _, _, _, _, _, h1, _ => by simp [keyStr] at h1
+  | .bad _, _, _, _, _, _, h1, _ => by simp [keyStr] at h1
+
+
+
+theorem keyStr_isSome (p : Loc) : (k : Exp) → (keyStr k p).isSome = PatSpec.litKey k
+  | .unop o e l => by
+    have ih := keyStr_isSome p e
+    rw [keyStr, PatSpec.litKey]
+    cases hk : keyStr e p with
+    | none => rw [hk] at ih; simpa using ih
+    | some v => rw [hk] at ih; simpa using ih
+  | .int _ _ | .str _ _ | .name _ _ | .tru _ | .fls _ | .flt _ _ => by simp [keyStr, PatSpec.litKey]
+  | .noKey | .nil _ | .vararg _ | .binop _ _ _ _ | .table _ _ _ | .func _ | .parens _ _ | .index _ _ _
+  | .call _ _ _ _ | .bad _ => by simp [keyStr, PatSpec.litKey]
+
+theorem keyStr_loc (p : Loc) (k : Exp) (s : Bytes) (l : Loc) (h : keyStr k p = some (s, l)) : l = PatSpec.keyLoc k p := by
+  cases k <;> simp [keyStr, PatSpec.keyLoc, expLoc] at h ⊢ <;> try (exact h.2.symm)
+  rename_i o e lu
+  cases hk : keyStr e p with
+  | none => rw [hk] at h; simp at h
+  | some v => rw [hk] at h; simp at h; exact h.2.symm
+
+theorem compExp_litKey : (a b : Exp) → compExp a b = true → PatSpec.litKey b = true → PatSpec.litKey a = true
+  | .unop o1 e1 _, b, h, hb => by
+    cases b <;> simp [compExp, PatSpec.litKey] at h hb ⊢
+    rename_i o2 e2 _
+    exact compExp_litKey e1 e2 h.2 hb
+  | .int _ _, _, _, _ | .str _ _, _, _, _ | .name _ _, _, _, _ | .tru _, _, _, _ | .fls _, _, _, _ | .flt _ _, _, _, _ => by
+    simp [PatSpec.litKey]
+  | .noKey, b, h, hb | .nil _, b, h, hb | .vararg _, b, h, hb | .binop _ _ _ _, b, h, hb | .table _ _ _, b, h, hb
+  | .func _, b, h, hb | .parens _ _, b, h, hb | .index _ _ _, b, h, hb | .call _ _ _ _, b, h, hb | .bad _, b, h, hb => by
+    cases b <;> simp [compExp, PatSpec.litKey] at h hb
 
 end LuaHelper.Pat
